@@ -850,7 +850,7 @@ class System:
         """Solver"""
         v, i, state = self._sys_init(phase)
         iters = 0
-        while iters <= maxiter:
+        while iters < maxiter:
             vi, ostate = self._fwd_prop(v, i, phase, state)
             ii = self._back_prop(vi, i, phase, state)
             iters += 1
@@ -864,6 +864,8 @@ class System:
                     print("{}Tolerances met after {} iterations".format(pname, iters))
                 break
             v, i, state = vi, ii, ostate
+        else:
+            iters = maxiter + 1
         return v, i, iters, state
 
     def _calc_energy(self, phase, pwr):
